@@ -45,7 +45,8 @@ PROPS["C13"] = {
             "the scenario's store-command sequence is recorded fault-free, then re-executed once for EVERY position x EVERY fault kind "
             "(error before/after effect, timeout before/after effect, slow, key missing, evicted, value of another session, truncation to 8 length "
             "classes, bit flip at 8 positions, garbage of 4 lengths) and for pairs of positions (all pairs in thorough, 12 sampled in quick), each "
-            "iteration with a fresh browser and login; non-trivial = at least one fault fired inside the flow; distinct = distinct event-log hash",
+            "iteration with a fresh browser and login; a failed lock acquisition (an error or timeout returned by the obtain script, not 'held by somebody else') "
+            "must not be followed by serving the request; non-trivial = at least one fault fired inside the flow; distinct = distinct event-log hash",
     "assumptions": COMMON_ASSUMPTIONS + ["faults are injected at the go-redis ProcessHook, i.e. below the repository's redis client wrapper, store, ticket and lock code"],
 }
 
@@ -99,7 +100,7 @@ PROPS["C09"] = {
     "level": "exploration",
     "quick_runs": 1600, "quick_budget_s": 150, "thorough_budget_s": 600,
     "rule": "one run = one world (store, provider personality, cookie-expire E, cookie-refresh R, rotating refresh tokens, failing refresh, issuing replica "
-            "whose clock is ahead by 0 / 4m58s / 5m02s / 6m / 1h, two replicas) + a seeded subset of a clock grid around R, E, E+R, 2E, the five-minute future bound "
+            "whose clock is ahead by 0 / 4m58s / 5m02s / 6m / 1h, two replicas, session size single cookie / 2 parts / 3 parts) + a seeded subset of a clock grid around R, E, E+R, 2E, the five-minute future bound "
             "and random points; at every point the browser's own request (which may refresh and reset the age) and a replay of EVERY credential value ever issued "
             "(attacker client ignoring Max-Age); oracles: stamped age >= E+1s => not served, issue time >= 5m+1s in the future => not served, current credential "
             "younger than E-2s => served (fault-free), Max-Age == E, Redis TTL == E after each write and entry gone after E; "
@@ -138,12 +139,12 @@ PROPS["C05"] = {
 PROPS["C04"] = {
     "level": "exploration",
     "quick_runs": 800, "quick_budget_s": 150, "thorough_budget_s": 600,
-    "rule": "one run = one world (keys via discovery / static JWKS URL / public-key file, audience claim aud or azp, extra audience, e-mail claim, groups claim, "
+    "rule": "one run = one world (keys via discovery / static JWKS URL / public-key file, audience claim aud, azp or the lists aud,azp / azp,aud (the first claim present decides), extra audience, an extra JWT issuer with its own key and audience, e-mail claim, groups claim, "
             "allow-unverified-email, store) + 12-23 ID tokens minted by a Byzantine FakeIdP from orthogonal knobs (signing key: right / second published / foreign / "
             "alg none / HS256 keyed with the public key / foreign key under a published kid; iss: right / other / suffix / prefix / case; audience: client / list with / "
             "extra / list without / other / prefix / number / absent; exp: future / past / just past / boundary; email_verified: true / absent / false / string; claim "
-            "values incl. Unicode, single-string groups, missing claims), each driven through one of the three entry paths (code redemption, refresh of an aged session, "
-            "Authorization: Bearer); should_accept is computed from the construction parameters; oracles: session <=> should_accept, upstream identity == the token's "
+            "values incl. Unicode, single-string groups, missing claims), each driven through one of the entry paths (code redemption, refresh of an aged session, "
+            "Authorization: Bearer, bearer token of the second issuer with independently drawn iss / signing key / audience / exp / email_verified; bearer tokens travel as Bearer or inside Basic credentials); should_accept is computed from the construction parameters; oracles: session <=> should_accept, upstream identity == the token's "
             "configured claims, profile endpoint (which answers with different values) only for claims the token lacks; non-trivial = at least one token accepted; "
             "distinct = distinct world key + event hash",
     "level_text": "seeded search over Byzantine IdP token minting x verifier configurations x three entry paths",
@@ -172,8 +173,8 @@ PROPS["C02"] = {
             "every position (strided inside multi-kilobyte values in quick, dense near separators and ends) x 7 replacement classes, every truncation, 8 extensions, every part drop / "
             "duplication / swap, all mixes of two sessions' parts, splices at every separator and inside the value, field-boundary shifts value<->timestamp<->signature and name<->value, "
             "timestamp edits, re-signing with 4 other secrets, signature removal, cross-name moves session<->CSRF<->part names, CSRF substitution sweep at the callback, and for Redis "
-            "bit flips / truncations / swaps / extension of the stored value; oracle through /oauth2/auth exposing every session field: rejected or exactly the session issued; every "
-            "Set-Cookie value and Redis value is scanned (raw and base64-decoded per field) for 8-byte windows of tokens, e-mails, user names; "
+            "bit flips / truncations / swaps / extension of the stored value, and altered / self-made ticket cookies riding on the login callback of another user (the proxy must not adopt the key such a cookie dictates, nor touch the named entry); oracle through /oauth2/auth exposing every session field: rejected or exactly the session issued; every "
+            "Set-Cookie value and Redis value is scanned (raw and base64-decoded per field) for 8-byte windows of tokens, e-mails, user names, and every stored value is tried (AES-GCM) with every 16/24/32-byte string its own key name contains; "
             "non-trivial = more than 100 alterations presented; distinct = distinct world key + event hash",
     "level_text": "complete enumeration of storage/transport alterations of every artefact issued in each sampled world",
     "assumptions": COMMON_ASSUMPTIONS + ["cryptographic strength of HMAC-SHA256 / AES is not in scope: the check shows that the MAC covers what it must and that decoding is strict",
@@ -319,17 +320,20 @@ PROPS["C20"] = {
 }
 
 # free-running passes under the race detector (see sim/freerun.go)
-for _p in ("C02", "C10", "C12"):
+for _p in ("C02", "C03", "C05", "C10", "C12"):
     PROPS[_p]["passes"] = [{"variant": ""}, {"race": True, "variant": "race", "quick_runs": 48, "thorough_runs": 600, "workers": 8}]
     PROPS[_p]["race_files"] = ()  # any access inside the repository (harness frames excluded)
     PROPS[_p]["rule"] += ("; plus a free-running pass of the -race binary: 2-16 clients in truly parallel goroutines (logins of different users and sizes, simultaneous staleness of all "
-                         "sessions on two replicas): every browser must load its own session, and any race-detector report whose conflicting access lies in repository code is a violation")
+                         "sessions on two replicas; for C03 / C05 with csrf-per-request, encode-state and PKCE drawn per world): every login must succeed, every browser must load its own "
+                         "session, and any race-detector report whose conflicting accesses lie in repository code - or inside a dependency object that BOTH goroutines reached through "
+                         "repository code - is a violation")
 
 # quick tier sized to roughly 15-30 s per property on 16 workers (measured; see evidence wall_s)
 for _p, _n in {"C01": 2400, "C02": 240, "C03": 6000, "C04": 3200, "C05": 12000, "C06": 480, "C07": 6000, "C08": 8000, "C09": 6400, "C10": 8000, "C11": 16000,
                "C12": 12000, "C13": 1600, "C14": 800, "C15": 800, "C16": 8000, "C17": 2400, "C18": 16000, "C19": 3000}.items():
     PROPS[_p]["quick_runs"] = _n
-PROPS["C02"]["passes"] = [{"variant": ""}, {"race": True, "variant": "race", "quick_runs": 120, "thorough_runs": 1200, "workers": 8}]
+for _p in ("C02", "C03", "C05"):
+    PROPS[_p]["passes"] = [{"variant": ""}, {"race": True, "variant": "race", "quick_runs": 120, "thorough_runs": 1200, "workers": 8}]
 for _p in ("C10", "C12"):
     PROPS[_p]["passes"] = [{"variant": ""}, {"race": True, "variant": "race", "quick_runs": 160, "thorough_runs": 1600, "workers": 8}]
 PROPS["C20"]["passes"] = [{"variant": "modeA", "instrumented": True, "quick_runs": 6000}, {"race": True, "variant": "race", "quick_runs": 480, "thorough_runs": 4000, "workers": 8}]
